@@ -16,6 +16,44 @@ CHECKS = {
              "Manager-level reply rule (table plus connected peers) is checked with the network harness under C01/C03.",
         technique="TLA+ spec + TLC exhaustive; impl->spec trace validation with TLC as oracle",
         design="6/C02"),
+    "C15": dict(
+        level="model_checking",
+        text="CloseGroup.tla: the verdict function of validate_membership transcribed in its decision order (I-level) is "
+             "model-checked exhaustively against the clauses of the property (P-level predicates of CloseGroupRules.tla: trusted "
+             "quorum, fraction, regions, no collusion flag, f-liars, trust-weighted share, flip monotonicity, unanimous acceptance) "
+             "over every witness multiset of the (confirm x trust x region x latency) grid up to size 3-8 (thorough: 4-10, f = 3), "
+             "three wrong designs and four non-vacuity probes must give counterexamples; verdicts recorded from the real "
+             "CloseGroupValidator (26-60 configurations incl. the library's constructors, both modes, one-flip neighbours) are "
+             "judged by the same P-level predicates in Trace_CloseGroup.tla.",
+        note="Exact integer arithmetic (per-mille trust, rational thresholds); the only f64-ambiguous point (trust share exactly at "
+             "the threshold) is admitted either way. Region clause judged in its weaker reading (regions of all confirmations); the "
+             "stricter reading is tallied in the evidence. Collusion flag is the code's output, its heuristic is only I-level.",
+        technique="TLA+ spec + TLC exhaustive; impl->spec trace validation with TLC as oracle",
+        design="6/C15"),
+    "C16": dict(
+        level="model_checking",
+        text="Eviction.tla (three-map implementation state vs policy predicate, all histories of 2-3 peers) and Selector.tla (sort by "
+             "score with/without the f64 distance erasure, every candidate list over a 3-bit id space, key, count, exclusion) are "
+             "model-checked exhaustively; recorded histories of the real EvictionManager, selections of the real "
+             "TrustAwarePeerSelector over embedded ids (families: leading / middle / bytes 15..31 / last byte / spread) and "
+             "DhtCoreEngine join/evict/fail/find/store histories are judged by Trace_Sideline.tla.",
+        note="Ranking clauses are judged for trust inside the TrustProvider contract [0,1]; NaN / out-of-range trusts are driven "
+             "for structural clauses and panic-freedom. Engine-level trust-enabled selection (EigenTrustEngine as provider) is "
+             "not driven; disabled mode is (store receipts). Exactness of closest-node answers is C02's.",
+        technique="TLA+ spec + TLC exhaustive; impl->spec trace validation with TLC as oracle",
+        design="6/C16"),
+    "C17": dict(
+        level="model_checking",
+        text="Placement.tla (k rounds of pick-any-remaining + post-validation, over all candidate multisets of a region x ASN x "
+             "site grid, all k and pick orders; three wrong designs must fail) is model-checked exhaustively; outcomes of the real "
+             "WeightedPlacementStrategy / PlacementEngine over seeded candidate sets on a site grid (0..60 nodes, metadata gaps, "
+             "foreign metadata, degenerate optimisation weights, k 0..20, 40-200 sampler seeds per input), WeightedSampler calls "
+             "with zero/negative/infinite/NaN weights and the bounds tables are judged by Trace_Placement.tla.",
+        note="Near/far comes from the harness's site grid (trusted base), not from the library; the library's distances are "
+             "logged and cross-checked as a tally. 'Favours heavier candidates' is a one-sided statistical tally (10:1 and 3:1), "
+             "not a specification verdict.",
+        technique="TLA+ spec + TLC exhaustive; impl->spec trace validation with TLC as oracle",
+        design="6/C17"),
 }
 
 CHECKS["C06"] = dict(
@@ -41,6 +79,31 @@ CHECKS["C07"] = dict(
          "TLC. Snapshot damage is judged by NoInvention/DamageReported only (expected exact state not defined by the property).",
     technique="TLA+ trace acceptor over damage-injection runs of the real recovery; design model shared with C06",
     design="6/C07")
+
+CHECKS["C10"] = dict(
+    level="model_checking",
+    text="Trust.tla (P-level state of the EigenTrust engine, relation detector, query bookkeeping; I-level score = "
+         "weight x exact rational statistics factor, cache) is model-checked exhaustively for twin engines over 3 nodes and "
+         "all weight vectors (two deviation flags must produce counterexamples); recorded histories of twin real engines "
+         "(all update entry points incl. P2PNode::report_peer_*, up to 600 identities) are judged by Trace_Trust.tla: "
+         "domain, range, sum, determinism, success/failure monotonicity, severity order, per-peer query.",
+    note="Scores are observed, not recomputed: floating point is compared on logged ppb integers with 2 ppm (sum) / 1 ppm "
+         "(relations) tolerance. The 2 s timeout fallback is detected exactly on a paused tokio clock. Trusted: ppb "
+         "projection, TLC, Json module.",
+    technique="TLA+ spec + TLC exhaustive; impl->spec trace validation with TLC as oracle (twin engines)",
+    design="6/C10")
+
+CHECKS["C11"] = dict(
+    level="model_checking",
+    text="TrustMass.tla (integer mass-flow model of the power iteration, lumped into anchors / honest / closed set) is "
+         "model-checked over all 480 configurations (SybilBound, AnchorFloor; dropping dangling mass as implemented must "
+         "produce a counterexample), TrustMassU.tla checks the lumping against an un-lumped 4-node graph; the concrete "
+         "graph of every configuration plus random asymmetric graphs are run on the real engine and judged by "
+         "Trace_TrustMass.tla (bounds as stated in the property; lumped prediction within 0.5% reported as MODEL-DRIFT only).",
+    note="Trusted: f64 sum over the closed set / min over anchors and ppm rounding in the driver; for graphs with more "
+         "than 400 edges also the driver's dangling/closedness facts (recomputed by TLC otherwise).",
+    technique="TLA+ spec + TLC exhaustive; impl->spec trace validation with TLC as oracle",
+    design="6/C11")
 
 NOT_YET = {}
 
